@@ -559,23 +559,35 @@ class Project:
             f.write("\n".join(cfg) + "\n")
         ldir = os.path.join(directory, "locales")
         ascii_only = bool(self.style.get("ascii_escapes"))
+        fmt = self.style.get("format", "json")
+        ext = {"json": ".json", "yaml": ".yaml", "json5": ".json5"}[fmt]
+
+        def dump(data, path):
+            with open(path, "w", encoding="utf-8") as f:
+                if fmt == "json":
+                    json.dump(data, f, ensure_ascii=ascii_only, indent=1)
+                elif fmt == "yaml":
+                    f.write(to_yaml(data))
+                else:
+                    f.write(to_json5(data))
         if self.namespaces:
             for loc in self.locale_order():
                 os.makedirs(os.path.join(ldir, loc), exist_ok=True)
                 for ns in self.namespaces:
-                    with open(os.path.join(ldir, loc, ns + ".json"), "w", encoding="utf-8") as f:
-                        json.dump(self.print_map(self.files[ns][loc]), f, ensure_ascii=ascii_only, indent=1)
+                    dump(self.print_map(self.files[ns][loc]), os.path.join(ldir, loc, ns + ext))
         else:
             os.makedirs(ldir, exist_ok=True)
             for loc in self.locale_order():
-                with open(os.path.join(ldir, loc + ".json"), "w", encoding="utf-8") as f:
-                    json.dump(self.print_map(self.files[loc]), f, ensure_ascii=ascii_only, indent=1)
+                dump(self.print_map(self.files[loc]), os.path.join(ldir, loc + ext))
 
     def print_map(self, d):
         out = {}
         order = list(d)
         if self.style.get("reverse_keys"):
             order = list(reversed(order))
+        if self.style.get("shuffle_keys") is not None:
+            import random as _r
+            _r.Random("%s/%s" % (self.style["shuffle_keys"], ",".join(order))).shuffle(order)
         for k in order:
             v = d[k]
             if v[0] == "plural":
@@ -777,3 +789,93 @@ def RANGE(ty, branches, count_key="count"):
 
 def PLURAL(rule, forms, count_key="count"):
     return ("plural", rule, forms, count_key)
+
+
+# ------------------------------------------------------------------------------------------ other file formats
+def _yaml_scalar(v):
+    if v is None:
+        return "null"
+    if v is True:
+        return "true"
+    if v is False:
+        return "false"
+    if isinstance(v, (int, float)):
+        return repr(v) if isinstance(v, float) else str(v)
+    # double-quoted YAML scalar: JSON's escapes for the ASCII range, \\uXXXX / \\UXXXXXXXX for everything else
+    # (YAML has no surrogate pairs)
+    out = ['"']
+    for ch in v:
+        o = ord(ch)
+        if ch == '"':
+            out.append('\\"')
+        elif ch == "\\":
+            out.append("\\\\")
+        elif ch == "\n":
+            out.append("\\n")
+        elif ch == "\r":
+            out.append("\\r")
+        elif ch == "\t":
+            out.append("\\t")
+        elif 0x20 <= o < 0x7f:
+            out.append(ch)
+        elif o <= 0xffff:
+            out.append("\\u%04x" % o)
+        else:
+            out.append("\\U%08x" % o)
+    out.append('"')
+    return "".join(out)
+
+
+def to_yaml(data, indent=0):
+    """Block-style YAML for mappings, flow style for sequences (range declarations), double-quoted strings."""
+    pad = "  " * indent
+    if isinstance(data, dict):
+        if not data:
+            return pad + "{}\n" if indent == 0 else "{}\n"
+        out = []
+        for k, v in data.items():
+            key = _yaml_scalar(k)
+            if isinstance(v, dict) and v:
+                out.append("%s%s:\n%s" % (pad, key, to_yaml(v, indent + 1)))
+            elif isinstance(v, dict):
+                out.append("%s%s: {}\n" % (pad, key))
+            elif isinstance(v, list):
+                out.append("%s%s: %s\n" % (pad, key, _yaml_flow(v)))
+            else:
+                out.append("%s%s: %s\n" % (pad, key, _yaml_scalar(v)))
+        return "".join(out)
+    raise ValueError("top level of a locale file must be a mapping")
+
+
+def _yaml_flow(v):
+    if isinstance(v, list):
+        return "[" + ", ".join(_yaml_flow(x) for x in v) + "]"
+    if isinstance(v, dict):
+        return "{" + ", ".join("%s: %s" % (_yaml_scalar(k), _yaml_flow(x)) for k, x in v.items()) + "}"
+    return _yaml_scalar(v)
+
+
+def to_json5(data, indent=0):
+    """JSON5 flavour: comments, unquoted identifier keys, single-quoted strings, trailing commas."""
+    import re as _re
+    pad = "  " * indent
+
+    def key(k):
+        return k if _re.match(r"^[A-Za-z_$][A-Za-z0-9_$]*$", k) else json.dumps(k, ensure_ascii=True)
+
+    def scalar(v):
+        if isinstance(v, str):
+            body = json.dumps(v, ensure_ascii=True)[1:-1].replace("\\\"", "\"").replace("'", "\\'")
+            return "'" + body + "'"
+        return json.dumps(v)
+
+    def val(v, ind):
+        if isinstance(v, dict):
+            if not v:
+                return "{}"
+            inner = "".join("%s  %s: %s,\n" % ("  " * ind, key(k), val(x, ind + 1)) for k, x in v.items())
+            return "{\n" + inner + "  " * ind + "}"
+        if isinstance(v, list):
+            return "[" + ", ".join(val(x, ind) for x in v) + ",]" if v else "[]"
+        return scalar(v)
+    return "// generated\n" + val(data, indent) + "\n"
